@@ -126,3 +126,56 @@ func fragmentCount(p *pkgInfo, recv, fn, target string) int {
 	}
 	return len(findChains(fd.Body, target))
 }
+
+// extractAssign: the Occ-th assignment (`=` or `:=`) to Target anywhere in the function, translated as the assigned value.
+// The number of such assignments is checked too (exactly Occ+1 … unless more are declared by further specs): a new
+// assignment to the same lvalue elsewhere in the function changes the count and is reported.
+func extractAssign(k *ktr, fd *ast.FuncDecl) (string, error) {
+	var found []ast.Expr
+	ast.Inspect(fd.Body, func(n ast.Node) bool {
+		if a, ok := n.(*ast.AssignStmt); ok && (a.Tok == token.ASSIGN || a.Tok == token.DEFINE) && len(a.Lhs) == 1 && len(a.Rhs) == 1 {
+			if kNormExpr(a.Lhs[0]) == k.spec.Target {
+				found = append(found, a.Rhs[0])
+			}
+		}
+		return true
+	})
+	if len(found) != k.spec.Occ+1 {
+		return "", fmt.Errorf("kernel %s: %s.%s contains %d assignment(s) to %s, expected exactly %d",
+			k.spec.Name, k.spec.Recv, k.spec.Func, len(found), k.spec.Target, k.spec.Occ+1)
+	}
+	t, ty, err := k.expr(found[k.spec.Occ])
+	if err != nil {
+		return "", err
+	}
+	if ty == "Lit" && k.spec.Ret == "Int" {
+		t, ty = "("+t+" : Int)", "Int"
+	}
+	if leanParamType(ty) != k.spec.Ret {
+		return "", fmt.Errorf("kernel %s: assigned value has type %s, expected %s", k.spec.Name, ty, k.spec.Ret)
+	}
+	return t, nil
+}
+
+// extractGuard: the condition of the `if` whose body DIRECTLY contains the call statement Target (exactly one such `if`
+// in the function); enclosing conditions are not part of the kernel (they are the caller's context).
+func extractGuard(k *ktr, fd *ast.FuncDecl) (string, error) {
+	var found []*ast.IfStmt
+	ast.Inspect(fd.Body, func(n ast.Node) bool {
+		if i, ok := n.(*ast.IfStmt); ok {
+			for _, st := range i.Body.List {
+				if es, ok := st.(*ast.ExprStmt); ok && kNormExpr(es.X) == k.spec.Target {
+					found = append(found, i)
+				}
+			}
+		}
+		return true
+	})
+	if len(found) != 1 {
+		return "", fmt.Errorf("kernel %s: %s.%s has %d `if` statements guarding %s, expected exactly 1", k.spec.Name, k.spec.Recv, k.spec.Func, len(found), k.spec.Target)
+	}
+	if found[0].Init != nil || found[0].Else != nil {
+		return "", fmt.Errorf("kernel %s: the guard of %s has an init statement or an else branch", k.spec.Name, k.spec.Target)
+	}
+	return k.cond(found[0].Cond)
+}
